@@ -211,15 +211,23 @@ def check_order(ctx):
     R.noerr_after(ctx, inst, b, pb, "after the destination name is published migrate() cannot fail any more (only publish itself rolls back)",
                   allowed=["DestinationGuard::publish"])
     # source stamp re-checked between verify and publish
-    st = ctx.sites(b, R.call("FileStamp::read_store_file", "FileStamp::read"), inst, floor=5)
+    # (a stamp check extracted into a thin private helper - both reads, the comparison and the SourceChanged error - still counts)
+    st = ctx.sites(b, R.call_or_thin_helper("FileStamp::read_store_file", "FileStamp::read"), inst, floor=2)
     after_verify = []
     for s in st:
         r, _ = A.reach(b, A.succs(b, vr[0]))
         if s in r:
             after_verify.append(s)
-    ctx.check(len(after_verify) >= 2, inst, "FOLLOW", b.path, "the source stamp is read again after verification", None)
+    ctx.check(len(after_verify) >= 1, inst, "FOLLOW", b.path, "the source stamp is read again after verification", None)
     R.dom(ctx, inst, b, after_verify[-1:], pb, "the last source-stamp comparison precedes publication", a_desc="FileStamp::read(source)")
-    sc = ctx.sites(b, R.aggregate("MigrationError", "SourceChanged"), inst, floor=3)
+    # a changed source is an error wherever the comparison lives
+    n_sc = sum(len(R.aggregate("MigrationError", "SourceChanged")(x)) for x in ctx.prog.product_bodies() if x.file.endswith("migration.rs"))
+    ctx.check(n_sc >= 1, inst, "anchor", b.path, "a changed source is reported as SourceChanged (found %d sites in migration.rs)" % n_sc, None)
+    # ... and the re-check after verification really fails the migration: its result is propagated
+    for s in after_verify[-1:]:
+        tb = [ctx.prog.bodies.get(t) for t in ctx.prog.targets(b.nodes[s].ev) if t in ctx.prog.bodies]
+        if tb and not any(R.call_matches(b.nodes[s].ev, nm) for nm in ("FileStamp::read_store_file", "FileStamp::read")):
+            ctx.check(R.result_is_used(b, s), inst, "NODISCARD", b.path, "the result of the source re-check is not dropped", b.where(s))
     # nothing happens for a v3 source
     def v3(e):
         return e.k == "bin" and e.extra == "Lt" and e.has_field("FeoxStore", "format_version") and e.has_const(val=3)
@@ -369,6 +377,28 @@ def check_ambiguous(ctx):
             a = R.arg_expr(b, b.nodes[x], 1)
             if not R.arg_expr(b, b.nodes[x], 0).has_call("File::try_clone"):
                 ctx.check(a.has_field("MigrationOptions", "allow_ambiguous_legacy_recovery"), inst, "PROVENANCE", b.path, "the source is opened with the caller's opt-in", b.where(x))
+    # every carrier of the opt-in (MigrationOptions, StoreBuilder, FeoxStore) stores the flag as it was given: `false` by default, the
+    # setter's own parameter, or another carrier's field - never combined with the previous value (`|=` makes a revoked opt-in
+    # sticky) or negated
+    FLAG = "allow_ambiguous_legacy_recovery"
+    n_st = 0
+    for bb in ctx.prog.product_bodies():
+        tr = A.tracer(bb)
+        vals = []
+        for n in bb.nodes:
+            if n.kind != "assign":
+                continue
+            p = n.ev["dst"]["p"]
+            if p and isinstance(p[-1], dict) and p[-1].get("n") == FLAG:
+                vals.append((n.id, tr.node_value(n.id)))
+            elif n.ev.get("rv") == "agg" and FLAG in (n.ev.get("fields") or []):
+                vals.append((n.id, tr.operand(n.ev["ops"][n.ev["fields"].index(FLAG)])))
+        for (nid, v) in vals:
+            n_st += 1
+            pure = (v.k == "const" and (v.extra or {}).get("val") == 0) or (v.k == "arg") or (v.k == "field" and v.extra[1] == FLAG and v.a and v.a[0].k in ("arg", "local", "field"))
+            ctx.check(pure, inst + "/carriers", "PROVENANCE", R.owner_fn(ctx.prog, bb), "the ambiguous-recovery opt-in is stored exactly as given (default false, the setter's parameter, another carrier's field)",
+                      bb.where(nid), {"value": v.show()[:80]})
+    ctx.check(n_st >= 5, inst + "/carriers", "anchor", "-", "stores of the opt-in flag examined (>= 5, found %d)" % n_st, None)
     b = ctx.fn("MigrationOptions::new", inst)
     if b is not None:
         for a in R.aggregate("MigrationOptions")(b):
